@@ -5,7 +5,7 @@ from . import tygen as TG
 from . import gencrate as GC
 from . import datacases as D
 
-THEOREMS = []
+THEOREMS = ["C02_format", "C02_header", "C02_forward", "C02_discr_width", "C02_discr_index"]
 HEADER = D.HEADER.replace("HarnessTy.", "HarnessTy Packed HarnessPk.")
 
 
@@ -31,11 +31,11 @@ def run(chk, tier, seed):
         for vi in range(len(r["vals"])):
             for c in ("bare", "noschema", "plain"):
                 n += 1
-                lines.append("b%d ty_rt %d %s 0 %d" % (n, ri, c, vi))
-                meta["b%d" % n] = {"kind": "bytes", "root": ri, "val": vi, "container": c, "version": 0, "n": n}
+                lines.append("b%d ty_rt %d %s %d %d" % (n, ri, c, r.get("curver", 0), vi))
+                meta["b%d" % n] = {"kind": "bytes", "root": ri, "val": vi, "container": c, "version": r.get("curver", 0), "n": n}
             n += 1
-            lines.append("d%d ty_det %d bare 0 %d" % (n, ri, vi))
-            meta["d%d" % n] = {"kind": "det", "root": ri, "val": vi, "container": "bare", "version": 0, "n": n}
+            lines.append("d%d ty_det %d bare %d %d" % (n, ri, r.get("curver", 0), vi))
+            meta["d%d" % n] = {"kind": "det", "root": ri, "val": vi, "container": "bare", "version": r.get("curver", 0), "n": n}
     # golden files written by the pinned (earlier) build: still loaded to the same value, still written identically
     gpath = os.path.join(C.ROOT, "golden", "golden.json")
     gold = json.load(open(gpath))["entries"] if os.path.exists(gpath) else []
@@ -68,12 +68,12 @@ def run(chk, tier, seed):
                 continue
             ct, cx = TG.coq_ty(t), TG.coq_val(r["vals"][m["val"]])
             if m["container"] == "bare":
-                oterms.append((m["n"], "spec_bytes 0 %s %s %s" % (ct, cx, D.hexlit(p[1]))))
+                oterms.append((m["n"], "spec_bytes %d %s %s %s" % (m["version"], ct, cx, D.hexlit(p[1]))))
             elif m["container"] == "noschema":
-                oterms.append((m["n"], "bytes_eqb (firstn 16 %s) (header 0 false) && spec_bytes 0 %s %s (skipn 16 %s)" % (D.hexlit(p[1]), ct, cx, D.hexlit(p[1]))))
+                oterms.append((m["n"], "bytes_eqb (firstn 16 %s) (header %d false) && spec_bytes %d %s %s (skipn 16 %s)" % (D.hexlit(p[1]), m["version"], m["version"], ct, cx, D.hexlit(p[1]))))
             else:
-                oterms.append((m["n"], "bytes_eqb (firstn 16 %s) (header 0 false) && match de_top 2 (skipn 16 %s) with Ok (_, payload) => spec_bytes 0 %s %s payload | _ => false end" % (
-                    D.hexlit(p[1]), D.hexlit(p[1]), ct, cx)))
+                oterms.append((m["n"], "bytes_eqb (firstn 16 %s) (header %d false) && match de_top 2 (skipn 16 %s) with Ok (_, payload) => spec_bytes %d %s %s payload | _ => false end" % (
+                    D.hexlit(p[1]), m["version"], D.hexlit(p[1]), m["version"], ct, cx)))
             chk.distinct.add((D.shape_key(t), m["container"]))
         elif m["kind"] == "det":
             if not o.startswith("1") and not known_root(r):
